@@ -78,3 +78,9 @@ package router
 //@ requires r != nil && r.sq != nil && !closed(r.sq)
 //@ ensures result == (sends(r.sq) == 1)
 //@ ensures sends(r.sq) <= 1
+// a refused submission is answered by the caller (aio.EnqueueSQE): the subsystem never invokes the callback here
+//@ funcvalue \.Callback$ records callback
+//@ ensures [body C12] calls("callback") == 0
+// called on the kernel loop: never waits (the only send is the non-blocking one)
+//@ site send assert false
+//@ site select assert !blocking
